@@ -62,7 +62,7 @@ def frame_obligations(res, prefixes=None):
 
 
 def worker(ops):
-    env = dict(os.environ, PYTHONPATH='/verif:%s:/verif/stubs' % common.REPO, PYTHONDONTWRITEBYTECODE='1')
+    env = dict(os.environ, PYTHONPATH='%s:%s:%s/stubs' % (common.HERE, common.REPO, common.HERE), PYTHONDONTWRITEBYTECODE='1')
     p = subprocess.run([sys.executable, '-m', 'checks.c12_worker', json.dumps(ops)], capture_output=True, text=True, env=env, cwd=common.HERE, timeout=600)
     if p.returncode != 0:
         raise common.CheckerDefect('c12 worker failed: %s' % p.stderr[-400:])
